@@ -16,6 +16,10 @@ RULE = ("unparse: conventional command trees (own generator: options with short/
         "occurrence (--n=v, --n v.., -ov, -o=v, -o v.., clusters -abc[ovalue]); the expected matches (raw occurrence "
         "groups split only at the declared delimiter, indices by the documented rule, subcommand chain) are computed "
         "from the invocation, not from argv, and travel with the case in a checksum-guarded x-expect item.  "
+        "unparse_tails: flat commands with one of the fourth-pass positional shapes (last(true) behind a single / a multiple "
+        "positional, trailing_var_arg, single / multi-valued positional with hyphen or negative-number values, low-index "
+        "multiple, allow_missing_positional) x lines of the matching tail grammar (values after --, raw tails with known flags / "
+        "-- / flag-looking tokens, look-ahead runs followed by nothing or a flag), same expectation mechanism.  "
         "random/adversarial: the shared generator (all features) for the index-discipline and provenance oracles.  "
         "A case is non-trivial when the parse succeeds and at least one argument has a command-line value.")
 TRUSTED = [
@@ -37,8 +41,11 @@ TECHNIQUE = ("Coq proof: (1) index discipline, key uniqueness and provenance as 
              "induction over the item list and over the command tree up to parse_top, conservation via C07's abstract fold and "
              "C06's phase frames, the index rule of react folded over the occurrences; third pass: the same simulation for the lifted "
              "class with new step lemmas for = spellings, terminators and MaybeHyphenValue exits, composition with C09's closed form "
-             "of the globals merge, refutation witness for the positional pending bound) + extracted-model/implementation "
-             "correspondence on the complete matches + python un-parser")
+             "of the globals merge, refutation witness for the positional pending bound; fourth pass: one iteration of parse_loop "
+             "split into classification and delivery phases (parse_loop_step, by computation), the trailing-mode loop via C05's "
+             "pos_body, tails of a level as tree constructors, the pending bound as ONE invariant by induction over the loop "
+             "branches, the bridge from the declared command through projection lemmas of _build_self) + extracted-model/"
+             "implementation correspondence on the complete matches + python un-parser")
 LEVEL_TEXT = ("Machine-checked theorems (Coq 8.16, closed under the global context).  (a) For every command accepted by the "
               "validity gate (class: no short flag-subcommands) and every token list, at every level: pairwise distinct keys, "
               "every index a fresh value of the running counter (unique, strictly increasing per argument), every stored value a "
@@ -61,15 +68,39 @@ LEVEL_TEXT = ("Machine-checked theorems (Coq 8.16, closed under the global conte
               "number values of options; parse_top of a rendered tree WITH global arguments = the meaning with C09's final map "
               "inserted at every level (closed form, old and lifted class); pending buffer: opens empty, grows by one token while "
               "below max, every accepted occurrence has min <= #values <= max (the literal bound is refuted for multi-valued "
-              "positionals, crate agrees: TooManyValues).")
-LEVEL_NOTE = ("Outside the (lifted) class (-- directly after an open multi-valued positional run, dont_delimit_trailing_values, last, trailing_var_arg, hyphen "
-              "values of positionals, values after -- for commands with terminators/require_equals/hyphen options, require_equals options given without a value, low-index multiples, allow_missing_positional, flag/external subcommands, ignore_errors, "
-              "args_conflicts_with_subcommands) conservation is checked by the python un-parser / model "
-              "comparison only (the un-parser's own class includes a bare -- in front of the last positional run of the line, with and "
-              "without dont_delimit_trailing_values, and values of a started multi-valued positional spelled like subcommand names); conv/convx are stated on the built command (decidable by computation; of the bridge from the command as "
-              "written only the per-argument and settings steps are proved, C02_bridge_*_partial); the pending-buffer bound is proved "
-              "per loop step, not yet as one invariant of the loop.  Trusted: Coq kernel, extraction, "
-              "OCaml driver, Rust harness, generators.")
+              "positionals, crate agrees: TooManyValues).  (d) Fourth pass: convx now also admits last(true) and trailing_var_arg "
+              "positionals, hyphen / negative-number values of POSITIONALS, low-index multiples (<sources>... <target>) and "
+              "allow_missing_positional; trees invy add the tails of a level -- the values after -- (delivered to the corrected "
+              "counter: the highest positional when a last(true) one exists), the run of a trailing_var_arg positional, the run of "
+              "a multi-valued positional with hyphen values (swallows flags, --, subcommand names), the look-ahead run at the "
+              "second-to-last positional (last value to the last positional) -- and C02_unparse_tree_y / _y / _denote_y / _globals_y / "
+              "conservation_tree_y / indices_tree_y are the whole of (b) for them; a token that looks like a flag but is a value of "
+              "the current positional (unknown long, cluster with an unknown short, -<number>) is characterised (hyphen_tok) and "
+              "short clusters are clusters exactly when they are not such a token (cluster_clear).  THE BRIDGE IS COMPLETE: "
+              "C02_bridge / C02_bridge_x (user_conventional[x] c0 -> conv / convx (build_self c0) for ALL valid c0: generated "
+              "--help/--version flags, Arg::_build, index assignment, deprecated-settings push, Built mark; the low-index conjunct "
+              "is derived from the declared arguments), C02_unparse_user(_y): the un-parser theorem stated on the command as "
+              "written, and C02_bridge_tree(_y) / C02_unparse_user_tree(_y): for whole command TREES as written (the user-level "
+              "class is stable under the propagation of global settings and global arguments into a child, and the child the "
+              "parser builds is build_self of the propagated declared child, so every level's class conjunct of wf_inv / wfy_inv "
+              "follows; old and lifted class).  C02_pending_bounded IS ONE INVARIANT of parse_loop: for all assert_app commands, all token lists, all "
+              "exits of the loop (errors included), the occurrence being collected for an OPTION never holds more than "
+              "num_args.max values (C02_pending_invariant: PB holds initially and is re-established at every iteration).")
+LEVEL_NOTE = ("Outside the lifted class (-- directly after an open multi-valued positional run, dont_delimit_trailing_values, the values "
+              "after -- for commands with a low-index multiple, a value equal to a positional's terminator after --, a multi-valued "
+              "positional with negative-number (not hyphen) values whose run stays open, require_equals options given without a "
+              "value, a subcommand directly after a look-ahead run, flag/external subcommands, ignore_errors, "
+              "args_conflicts_with_subcommands, subcommand_precedence_over_arg) conservation is checked by the python un-parser / "
+              "model comparison only (the python un-parser's own class includes a bare -- in front of the last positional run of the "
+              "line, with and without dont_delimit_trailing_values, and values of a started multi-valued positional spelled like "
+              "subcommand names).  The bridges discharge the class conjuncts of every level (old and lifted class); the items of each "
+              "level (names resolve by key on the built command, value tokens) and the subcommand-name tests are still checked on the "
+              "built command by computation.  The pending bound is for options; for multi-valued positionals it stays refuted "
+              "(their run is counted when flushed: C02_flushed_in_range).  The python un-parser stream renders the conventional "
+              "grammar; the fourth-pass shapes are tied to the crate by the stream unparse_tails (flat commands, expectations computed "
+              "from the invocation), by the corpus lines of the Coq examples (expectations = the pinned theorem statements) and by the "
+              "shared generators' model/implementation comparison.  Trusted: Coq kernel, "
+              "extraction, OCaml driver, Rust harness, generators.")
 
 VALS = [b"v", b"w", b"x1", b"1", b"0", b"zz", b"v=w", b"a.b", "é".encode(), b"3", b"=", b"e=", b"long-value", b"x y"]
 # values only an OsString-typed argument accepts: not well-formed UTF-8 (the grammar, and the split at the declared
@@ -467,6 +498,150 @@ def gen_unparse(rng, n, stats):
     return out[:n]
 
 
+# ----------------------------------------------------------------------------- the tails of a level (fourth pass)
+PLAIN = [b"A", b"B", b"x1", b"0", b"zz", b"a.b", "é".encode(), b"k=v", b"long-value", b"x y", b"a,b"]
+ANY = [b"-x", b"--", b"--opt", b"-v", b"--weird=1", b"plain", b"-", b"-5", b"--quiet", b"-qv", b"---", b"-=", b"3"]
+
+
+def gen_tail_case(rng, stats):
+    """One flat command and one line of the fourth-pass grammar (UnparseYTree.v: YTrail with a last(true) positional,
+    YTva, hyph_single items, YHyp, YLook for a low-index multiple / allow_missing_positional), with the expected groups and
+    indices computed from the invocation by the documented rule (an independent python reading of the grammar)."""
+    def arg(i, **kw):
+        a = {"id": i, "flags": set()}
+        a.update(kw)
+        return a
+    v = arg(b"v", short="v", action="count")
+    q = arg(b"q", short="q", long=b"quiet", action="settrue")
+    o = arg(b"o", long=b"opt", action="set")
+    c = {"name": b"p", "args": [v, q, o], "groups": [], "subs": [], "settings": [], "aliases": []}
+    exp = collections.OrderedDict()
+    toks = []
+    idx = [0]
+    nv = [0]
+
+    def flags(maxn=3):
+        for _ in range(rng.randrange(0, maxn + 1)):
+            k = rng.random()
+            if k < 0.4:
+                toks.append(b"-v")
+                idx[0] += 1
+                nv[0] += 1
+                exp.pop(b"v", None)
+                exp[b"v"] = {"occ": [[str(nv[0]).encode()]], "idx": [idx[0]]}
+            elif k < 0.7:
+                if b"q" in exp:
+                    continue
+                toks.append(pick(rng, [b"-q", b"--quiet"]))
+                idx[0] += 1
+                exp[b"q"] = {"occ": [[b"true"]], "idx": [idx[0]]}
+            else:
+                if b"o" in exp:
+                    continue
+                val = pick(rng, PLAIN)
+                idx[0] += 1
+                if rng.random() < 0.5:
+                    toks.extend([b"--opt", val])
+                else:
+                    toks.append(b"--opt=" + val)
+                idx[0] += 1
+                exp[b"o"] = {"occ": [[val]], "idx": [idx[0]]}
+
+    def give(a, vals):
+        e = exp.setdefault(a["id"], {"occ": [], "idx": []})
+        g = []
+        for x in vals:
+            idx[0] += 1
+            g.append(x)
+            e["idx"].append(idx[0])
+        e["occ"].append(g)
+
+    shape = pick(rng, ["last", "last-low", "tva", "hyph1", "hyphm", "low", "amp"])
+    stats["tail:" + shape] += 1
+    if shape in ("last", "last-low"):
+        first = arg(b"f", **({"num": (1, None), "action": "append"} if shape == "last-low" else {}))
+        rest = arg(b"r", num=(1, None), action="append", flags={"last"})
+        c["args"] += [first, rest]
+        flags()
+        if rng.random() < 0.7:
+            fv = [pick(rng, PLAIN) for _ in range(1 if shape == "last" else rng.randrange(1, 4))]
+            toks.extend(fv)
+            give(first, fv)
+            flags(2)
+        toks.append(b"--")
+        tail = [pick(rng, ANY + PLAIN) for _ in range(rng.randrange(1, 5))]
+        toks.extend(tail)
+        give(rest, tail)
+    elif shape == "tva":
+        cm = arg(b"c")
+        args = arg(b"a", num=(pick(rng, [0, 1]), None), flags={"tva"})
+        c["args"] += [cm, args]
+        flags()
+        toks.append(pick(rng, PLAIN))
+        give(cm, [toks[-1]])
+        flags(2)
+        tail = [pick(rng, PLAIN)] + [pick(rng, ANY + PLAIN) for _ in range(rng.randrange(0, 4))]
+        toks.extend(tail)
+        give(args, tail)
+    elif shape == "hyph1":
+        pat = arg(b"p", flags={"hyphen"})
+        num = arg(b"n", flags={"negnum"})
+        c["args"] += [pat, num]
+        flags(2)
+        # a value of [pat]: plain, an unknown long, a cluster with an unknown short (known ones may precede it)
+        t = pick(rng, [pick(rng, PLAIN), b"--weird", b"--weird=1", b"--op", b"-x", b"-vx", b"-Z9", b"-xv"])
+        toks.append(t)
+        give(pat, [t])
+        flags(2)
+        if rng.random() < 0.7:
+            t = pick(rng, [b"-5", b"-3.14", b"-0", b"-1e5", pick(rng, PLAIN)])
+            toks.append(t)
+            give(num, [t])
+            flags(2)
+    elif shape == "hyphm":
+        cm = arg(b"c")
+        args = arg(b"a", num=(1, None), flags={"hyphen"})
+        c["args"] += [cm, args]
+        flags()
+        toks.append(pick(rng, PLAIN))
+        give(cm, [toks[-1]])
+        flags(2)
+        tail = [pick(rng, [pick(rng, PLAIN), b"--weird", b"-x", b"-vx"])] + [pick(rng, ANY + PLAIN) for _ in range(rng.randrange(0, 4))]
+        toks.extend(tail)
+        give(args, tail)
+    elif shape == "low":
+        src = arg(b"s", num=(1, None), flags={"required"})
+        dst = arg(b"d", flags={"required"})
+        c["args"] += [src, dst]
+        flags()
+        init = [pick(rng, PLAIN) for _ in range(rng.randrange(1, 4))]
+        toks.extend(init)
+        give(src, init)
+        toks.append(pick(rng, PLAIN))
+        give(dst, [toks[-1]])
+        flags(2)
+    else:
+        first = arg(b"f")
+        second = arg(b"s", flags={"required"})
+        c["args"] += [first, second]
+        c["settings"] = ["allow_missing_positional"]
+        flags()
+        if rng.random() < 0.5:
+            toks.append(pick(rng, PLAIN))
+            give(first, [toks[-1]])
+        toks.append(pick(rng, PLAIN))
+        give(second, [toks[-1]])
+        flags(2)
+    argv = [b"p"] + toks
+    base = gen_cmd.cmd_sx(c)
+    body = base[:-1] + " (x-expect %s %s))" % (guard(base, argv), expect_sx([(exp, None)]))
+    return "(parse %s (argv%s))" % (body, "".join(" " + hexs(t) for t in argv))
+
+
+def gen_tails(rng, n, stats):
+    return [gen_tail_case(rng, stats) for _ in range(n)]
+
+
 def coq_example_cases():
     """The invocations of coq/theories/ParseProofs/UnparseExamples.v (pinned by C02_unparse_nonvacuous,
     C02_indices_nonvacuous, C02_unparse_tree_nonvacuous, C02_unparse_trail_nonvacuous) as un-parser cases: the expectations below are the values
@@ -546,10 +721,67 @@ def coq_example_cases():
     toks7 = [b"--term", b"X", b";", b"F", b"-v"]
     exp7 = collections.OrderedDict([(b"t", {"occ": [[b"X"]], "idx": [2]}), (b"f", {"occ": [[b"F"]], "idx": [3]}),
                                     (b"v", {"occ": [[b"1"]], "idx": [4]})])
+    # UnparseYExamples.v (C02_unparse_y_nonvacuous, C02_unparse_tva_nonvacuous): last(true) behind a multiple positional,
+    # the values after `--`, a trailing_var_arg run
+    yc = {"name": b"p", "args": [
+        arg(b"v", short="v", action="count"), arg(b"o", long=b"opt", action="set"),
+        arg(b"f", num=(1, None), action="append"),
+        arg(b"c", num=(1, None), action="append", term=b";", flags={"last"})],
+        "groups": [], "subs": [], "settings": [], "aliases": []}
+    toks8 = [b"-v", b"A", b"B", b"--opt", b"X", b"--", b"-a", b"--", b"run"]
+    exp8 = collections.OrderedDict([
+        (b"v", {"occ": [[b"1"]], "idx": [1]}), (b"f", {"occ": [[b"A", b"B"]], "idx": [2, 3]}),
+        (b"o", {"occ": [[b"X"]], "idx": [5]}), (b"c", {"occ": [[b"-a", b"--", b"run"]], "idx": [6, 7, 8]})])
+    toks9 = [b"-v", b"--", b"R", b"S"]
+    exp9 = collections.OrderedDict([(b"v", {"occ": [[b"1"]], "idx": [1]}), (b"c", {"occ": [[b"R", b"S"]], "idx": [2, 3]})])
+    tc = {"name": b"p", "args": [arg(b"v", short="v", action="count"), arg(b"c"), arg(b"a", num=(0, None), flags={"tva"})],
+          "groups": [], "subs": [], "settings": [], "aliases": []}
+    toks10 = [b"-v", b"C", b"a1", b"--x", b"-v", b"--", b"z"]
+    exp10 = collections.OrderedDict([
+        (b"v", {"occ": [[b"1"]], "idx": [1]}), (b"c", {"occ": [[b"C"]], "idx": [2]}),
+        (b"a", {"occ": [[b"a1", b"--x", b"-v", b"--", b"z"]], "idx": [3, 4, 5, 6, 7]})])
+    # UnparseYExamples.v HEx (C02_hyphen_positional_nonvacuous): hyphen / negative-number values of positionals
+    hc = {"name": b"p", "args": [
+        arg(b"v", short="v", action="count"), arg(b"o", long=b"opt", action="set"),
+        arg(b"p", flags={"hyphen"}), arg(b"n", flags={"negnum"})],
+        "groups": [], "subs": [], "settings": [], "aliases": []}
+    toks11 = [b"-v", b"--opt", b"X", b"--weird", b"-5"]
+    exp11 = collections.OrderedDict([
+        (b"v", {"occ": [[b"1"]], "idx": [1]}), (b"o", {"occ": [[b"X"]], "idx": [3]}),
+        (b"p", {"occ": [[b"--weird"]], "idx": [4]}), (b"n", {"occ": [[b"-5"]], "idx": [5]})])
+    toks12 = [b"-x", b"-v", b"-7"]
+    exp12 = collections.OrderedDict([
+        (b"p", {"occ": [[b"-x"]], "idx": [1]}), (b"v", {"occ": [[b"1"]], "idx": [2]}), (b"n", {"occ": [[b"-7"]], "idx": [3]})])
+    hsub = {"name": b"sub", "aliases": [], "args": [], "groups": [], "subs": [], "settings": []}
+    mc = {"name": b"p", "args": [arg(b"v", short="v", action="count"), arg(b"c"), arg(b"a", num=(1, None), flags={"hyphen"})],
+          "groups": [], "subs": [hsub], "settings": [], "aliases": []}
+    toks13 = [b"-v", b"C", b"--foo", b"-v", b"--", b"sub"]
+    exp13 = collections.OrderedDict([
+        (b"v", {"occ": [[b"1"]], "idx": [1]}), (b"c", {"occ": [[b"C"]], "idx": [2]}),
+        (b"a", {"occ": [[b"--foo", b"-v", b"--", b"sub"]], "idx": [3, 4, 5, 6]})])
+    # UnparseYExamples.v LEx (C02_lookahead_nonvacuous): a low-index multiple and allow_missing_positional
+    lc = {"name": b"p", "args": [arg(b"v", short="v", action="count"), arg(b"s", num=(1, None), flags={"required"}),
+                                 arg(b"d", flags={"required"})], "groups": [], "subs": [], "settings": [], "aliases": []}
+    toks14 = [b"-v", b"A", b"B", b"C"]
+    exp14 = collections.OrderedDict([(b"v", {"occ": [[b"1"]], "idx": [1]}), (b"s", {"occ": [[b"A", b"B"]], "idx": [2, 3]}),
+                                     (b"d", {"occ": [[b"C"]], "idx": [4]})])
+    toks15 = [b"A", b"B", b"C", b"-v"]
+    exp15 = collections.OrderedDict([(b"s", {"occ": [[b"A", b"B"]], "idx": [1, 2]}), (b"d", {"occ": [[b"C"]], "idx": [3]}),
+                                     (b"v", {"occ": [[b"1"]], "idx": [4]})])
+    ac = {"name": b"p", "args": [arg(b"v", short="v", action="count"), arg(b"f"), arg(b"s", flags={"required"})],
+          "groups": [], "subs": [], "settings": ["allow_missing_positional"], "aliases": []}
+    toks16 = [b"A", b"-v"]
+    exp16 = collections.OrderedDict([(b"s", {"occ": [[b"A"]], "idx": [1]}), (b"v", {"occ": [[b"1"]], "idx": [2]})])
+    toks17 = [b"-v", b"A", b"B"]
+    exp17 = collections.OrderedDict([(b"v", {"occ": [[b"1"]], "idx": [1]}), (b"f", {"occ": [[b"A"]], "idx": [2]}),
+                                     (b"s", {"occ": [[b"B"]], "idx": [3]})])
     out = []
     for c, toks, lv in ((one, toks1, [(exp1, None)]), (two, toks2, exp2), (one, toks3, [(exp3, None)]),
                         (order, toks4, [(exp4, None)]), (osc, toks5, [(exp5, None)]), (xc, toks6, exp6),
-                        (xc1, toks7, [(exp7, None)])):
+                        (xc1, toks7, [(exp7, None)]), (yc, toks8, [(exp8, None)]), (yc, toks9, [(exp9, None)]),
+                        (tc, toks10, [(exp10, None)]), (hc, toks11, [(exp11, None)]), (hc, toks12, [(exp12, None)]),
+                        (mc, toks13, [(exp13, None)]), (lc, toks14, [(exp14, None)]), (lc, toks15, [(exp15, None)]),
+                        (ac, toks16, [(exp16, None)]), (ac, toks17, [(exp17, None)])):
         argv = [b"p"] + toks
         base = gen_cmd.cmd_sx(c)
         body = base[:-1] + " (x-expect %s %s))" % (guard(base, argv), expect_sx(lv))
@@ -710,9 +942,13 @@ def streams(tier, rng):
     adv = gen_cases(rng, 20000 if big else 2000, {"hyphen": 0.3, "flag_subs": 0.5, "low_index": 0.2, "terminators": 0.3,
                                                   "require_equals": 0.3, "last": 0.3, "tva": 0.25, "delims": 0.5},
                     p_mutate=0.3, safe_p=0.7)
+    tstats = collections.Counter()
+    tails = gen_tails(rng, 20000 if big else 2000, tstats)
     return [
         Stream("unparse", unp, oracle=oracle_unparse, area="parse", project=project, nontrivial=nontrivial,
                describe={"spellings": freeze(stats)}),
+        Stream("unparse_tails", tails, oracle=oracle_unparse, area="parse", project=project, nontrivial=nontrivial,
+               describe={"shapes": freeze(tstats)}),
         Stream("conventional", conv, oracle=oracle_generic, area="parse", project=project, nontrivial=nontrivial),
         Stream("random", rand, oracle=oracle_generic, area="parse", project=project, nontrivial=nontrivial),
         Stream("adversarial", adv, oracle=oracle_generic, area="parse", project=project, nontrivial=nontrivial),
